@@ -47,7 +47,21 @@ func (f *freeSrv) apply(data []byte) (uint64, any) {
 	return i, f.r.applyBytes(i, data)
 }
 
-func (f *freeSrv) applyReq(t structs.MessageType, req any) (uint64, any) { return f.apply(fsmEnc(t, req)) }
+func (f *freeSrv) applyReq(t structs.MessageType, req any) (uint64, any) {
+	return f.apply(fsmEnc(t, req))
+}
+
+// mark applies a marker write; the index counts as a marker only if the command was accepted (a
+// config entry can be refused by the service-graph validation, then there is nothing to wait for)
+func (f *freeSrv) mark(out map[string]uint64, t structs.MessageType, req any, subjects ...string) {
+	i, res := f.applyReq(t, req)
+	if _, isErr := res.(error); isErr {
+		i = 0
+	}
+	for _, sj := range subjects {
+		out[sj] = i
+	}
+}
 
 type freeClient struct {
 	id     int
@@ -97,31 +111,24 @@ func (f *freeSrv) markers(round int) map[string]uint64 {
 	chk := func(node, svcID, svcName string) structs.HealthChecks {
 		return structs.HealthChecks{{Node: node, CheckID: "marker", Name: "marker", Status: api.HealthPassing, Output: fmt.Sprint(round), ServiceID: svcID, ServiceName: svcName}}
 	}
-	i, _ := f.applyReq(structs.RegisterRequestType, &structs.RegisterRequest{Datacenter: "dc1", Node: "n1", Address: "10.0.0.1", ID: gen.NodeIDs[0],
-		Service: &structs.NodeService{ID: "web", Service: "web", Port: 8000}, Checks: chk("n1", "web", "web")})
-	out["health:web"] = i
-	i, _ = f.applyReq(structs.RegisterRequestType, &structs.RegisterRequest{Datacenter: "dc1", Node: "n1", Address: "10.0.0.1", ID: gen.NodeIDs[0],
-		Service: &structs.NodeService{ID: "db", Service: "db", Port: 8000}, Checks: chk("n1", "db", "db")})
-	out["health:db"] = i
-	i, _ = f.applyReq(structs.RegisterRequestType, &structs.RegisterRequest{Datacenter: "dc1", Node: "n2", Address: "10.0.0.2", ID: gen.NodeIDs[1],
+	f.mark(out, structs.RegisterRequestType, &structs.RegisterRequest{Datacenter: "dc1", Node: "n1", Address: "10.0.0.1", ID: gen.NodeIDs[0],
+		Service: &structs.NodeService{ID: "web", Service: "web", Port: 8000}, Checks: chk("n1", "web", "web")}, "health:web")
+	f.mark(out, structs.RegisterRequestType, &structs.RegisterRequest{Datacenter: "dc1", Node: "n1", Address: "10.0.0.1", ID: gen.NodeIDs[0],
+		Service: &structs.NodeService{ID: "db", Service: "db", Port: 8000}, Checks: chk("n1", "db", "db")}, "health:db")
+	f.mark(out, structs.RegisterRequestType, &structs.RegisterRequest{Datacenter: "dc1", Node: "n2", Address: "10.0.0.2", ID: gen.NodeIDs[1],
 		Service: &structs.NodeService{Kind: structs.ServiceKindConnectProxy, ID: "web-sidecar-proxy", Service: "web-sidecar-proxy", Port: 8001,
-			Proxy: structs.ConnectProxyConfig{DestinationServiceName: "web", DestinationServiceID: "web"}}, Checks: chk("n2", "web-sidecar-proxy", "web-sidecar-proxy")})
-	out["connect:web"] = i
-	i, _ = f.applyReq(structs.RegisterRequestType, &structs.RegisterRequest{Datacenter: "dc1", Node: "n1x", Address: "10.0.0.4", PeerName: "peerA",
+			Proxy: structs.ConnectProxyConfig{DestinationServiceName: "web", DestinationServiceID: "web"}}, Checks: chk("n2", "web-sidecar-proxy", "web-sidecar-proxy")}, "connect:web")
+	f.mark(out, structs.RegisterRequestType, &structs.RegisterRequest{Datacenter: "dc1", Node: "n1x", Address: "10.0.0.4", PeerName: "peerA",
 		Service: &structs.NodeService{ID: "web", Service: "web", Port: 8000, PeerName: "peerA"},
-		Checks: structs.HealthChecks{{Node: "n1x", CheckID: "marker", Name: "marker", Status: api.HealthPassing, Output: fmt.Sprint(round), ServiceID: "web", ServiceName: "web", PeerName: "peerA"}}})
-	out["health:web@peerA"] = i
+		Checks:  structs.HealthChecks{{Node: "n1x", CheckID: "marker", Name: "marker", Status: api.HealthPassing, Output: fmt.Sprint(round), ServiceID: "web", ServiceName: "web", PeerName: "peerA"}}}, "health:web@peerA")
 	res := &structs.ServiceResolverConfigEntry{Kind: structs.ServiceResolver, Name: "web", ConnectTimeout: time.Duration(round+1) * time.Second}
 	_ = res.Normalize()
-	i, _ = f.applyReq(structs.ConfigEntryRequestType, &structs.ConfigEntryRequest{Datacenter: "dc1", Op: structs.ConfigEntryUpsert, Entry: res})
-	out["resolver:web"], out["resolver:*"] = i, i
+	f.mark(out, structs.ConfigEntryRequestType, &structs.ConfigEntryRequest{Datacenter: "dc1", Op: structs.ConfigEntryUpsert, Entry: res}, "resolver:web", "resolver:*")
 	def := &structs.ServiceConfigEntry{Kind: structs.ServiceDefaults, Name: "web", Protocol: "http", Meta: map[string]string{"round": fmt.Sprint(round)}}
 	_ = def.Normalize()
-	i, _ = f.applyReq(structs.ConfigEntryRequestType, &structs.ConfigEntryRequest{Datacenter: "dc1", Op: structs.ConfigEntryUpsert, Entry: def})
-	out["defaults:web"] = i
-	i, _ = f.applyReq(structs.RegisterRequestType, &structs.RegisterRequest{Datacenter: "dc1", Node: "n2", Address: "10.0.0.2", ID: gen.NodeIDs[1],
-		Service: &structs.NodeService{ID: fmt.Sprintf("marker-%d", round), Service: fmt.Sprintf("marker-%d", round), Port: 1}})
-	out["svclist:*"] = i
+	f.mark(out, structs.ConfigEntryRequestType, &structs.ConfigEntryRequest{Datacenter: "dc1", Op: structs.ConfigEntryUpsert, Entry: def}, "defaults:web")
+	f.mark(out, structs.RegisterRequestType, &structs.RegisterRequest{Datacenter: "dc1", Node: "n2", Address: "10.0.0.2", ID: gen.NodeIDs[1],
+		Service: &structs.NodeService{ID: fmt.Sprintf("marker-%d", round), Service: fmt.Sprintf("marker-%d", round), Port: 1}}, "svclist:*")
 	return out
 }
 
@@ -269,7 +276,11 @@ func freeRun(run *core.Run, rng *core.Rand, name string, rounds, opsPerProposer 
 			var idx uint64
 			ok := false
 			for ctx.Err() == nil {
-				q, err := c.mat.Query(ctx, marks[c.subj.Name]-1)
+				min := marks[c.subj.Name]
+				if min > 0 {
+					min--
+				}
+				q, err := c.mat.Query(ctx, min)
 				if err != nil && ctx.Err() == nil {
 					// the materializer reports the error of a forced resubscribe to waiting queries; ask again
 					runtime.Gosched()
